@@ -52,6 +52,16 @@ func BuildWorld(dir string, env []string, overlay map[string][]byte) *World {
 	}
 	w := &World{P: p, TS: ts, CG: cg, MR: mr, FE: fe, Region: region}
 	w.LK = NewLockEngine(w)
+	// "offered to the result set": the K-nearest Push and the named functions that wrap it
+	fe.extraTracked = map[*ssa.Function]string{}
+	if push := p.FuncOpt("(k-nearest-nodes.Type).Push"); push != nil {
+		fe.extraTracked[push] = "offer"
+		for _, e := range cg.CallersOf(push) {
+			if f := enclosingNamed(e.Caller); f != nil && p.IsLib(f) && f.Signature.Recv() != nil && len(f.Params) >= 2 {
+				fe.extraTracked[f] = "offer"
+			}
+		}
+	}
 	return w
 }
 
@@ -273,6 +283,7 @@ var regionRoots = []string{
 	"(*traversal.Operation).startQuery", "(*traversal.Operation).run", "(*traversal.Operation).addClosest",
 	"(*bep44.Wrapper).Put", "(*bep44.Wrapper).Get", "(k-nearest-nodes.Type).Push",
 	"(tokenServer).createToken", "(*tokenServer).ValidToken", "(*Server).transactionQuerySender",
+	"(*bucket).GetNode",
 }
 
 var singleSite = map[*ssa.Function]ssa.Instruction{}
